@@ -240,7 +240,9 @@ func (fc *FuncCtx) execCall(fr *Frame, st *State, com *ssa.CallCommon, ins ssa.I
 			unsupported("inline %s: no body available (package not loaded with syntax?)", key)
 		}
 		v.inlined[key] = true
-		return fc.inline(fr, st, callee, args, nil, ins.Pos())
+		res := fc.inline(fr, st, callee, args, nil, ins.Pos())
+		fc.recordInlinedResults(key, res)
+		return res
 	}
 	// a closure handed to code that is not executed in place (contract / opaque call) may be run by it any number of times:
 	// the captured variables it can write are unknown afterwards
@@ -254,6 +256,28 @@ func (fc *FuncCtx) execCall(fr *Frame, st *State, com *ssa.CallCommon, ins ssa.I
 		return fc.dispatchCall(fr, st, com, key, spec, args, ins)
 	}
 	return fc.contractCall(fr, st, com, key, spec, args, ins)
+}
+
+// recordInlinedResults makes the results of a call of an `inline` callee available as ret(Callee, n, i), exactly like the
+// results of contract and opaque calls (the clauses of the enclosing function cannot name the locals the results are
+// assigned to in an `ensures`).
+func (fc *FuncCtx) recordInlinedResults(key string, res Val) {
+	cshort := shortFuncName(key)
+	fc.callCount[cshort]++
+	var rsv []SV
+	if res.Tuple != nil {
+		for _, r := range res.Tuple {
+			if r.T == nil {
+				return
+			}
+			rsv = append(rsv, SV{T: r.T, GoT: r.GoT})
+		}
+	} else if res.T != nil {
+		rsv = append(rsv, SV{T: res.T, GoT: res.GoT})
+	}
+	if len(rsv) > 0 {
+		fc.callResults[fmt.Sprintf("%s#%d", cshort, fc.callCount[cshort])] = rsv
+	}
 }
 
 // havocCaptured forgets the value of every captured variable that a closure among args (or a closure it captures) may write:
@@ -1401,12 +1425,8 @@ func ensuresMentionsRet(spec *FuncSpec, e *Expr) bool {
 	if e.Kind == "call" && e.Name == "ret" {
 		return true
 	}
-	if e.Kind == "id" {
-		for _, l := range spec.Lets {
-			if l.Name == e.Name && strings.Contains(l.Type, "ret(") {
-				return true
-			}
-		}
+	if e.Kind == "id" && retLets(spec)[e.Name] {
+		return true
 	}
 	for _, a := range e.Args {
 		if ensuresMentionsRet(spec, a) {
@@ -1414,6 +1434,36 @@ func ensuresMentionsRet(spec *FuncSpec, e *Expr) bool {
 		}
 	}
 	return false
+}
+
+// retLets: the `let` macros of a contract whose text uses ret(...), directly or through another such macro (macros may only
+// use macros declared before them, so one pass in declaration order is a fixpoint).
+func retLets(spec *FuncSpec) map[string]bool {
+	out := map[string]bool{}
+	isIdent := func(b byte) bool {
+		return b == '_' || b == '$' || (b >= '0' && b <= '9') || (b >= 'a' && b <= 'z') || (b >= 'A' && b <= 'Z')
+	}
+	mentions := func(text, name string) bool {
+		for i := 0; i+len(name) <= len(text); i++ {
+			if text[i:i+len(name)] == name && (i == 0 || !isIdent(text[i-1])) && (i+len(name) == len(text) || !isIdent(text[i+len(name)])) {
+				return true
+			}
+		}
+		return false
+	}
+	for _, l := range spec.Lets {
+		if strings.Contains(l.Type, "ret(") {
+			out[l.Name] = true
+			continue
+		}
+		for n := range out {
+			if mentions(l.Type, n) {
+				out[l.Name] = true
+				break
+			}
+		}
+	}
+	return out
 }
 
 // ensuresMentionFresh: some postcondition of the contract uses fresh(...).
